@@ -529,6 +529,52 @@ func main() {
 		intParam("max_consecutive_empty_reads", 100, "GOROOT/src/bufio/scan.go:maxConsecutiveEmptyReads", v, ok, "nat")
 	}
 
+	// --- server.go ServeHTTP: the two http.Error replies (C16)
+	{
+		status := load(filepath.Join(runtime.GOROOT(), "src", "net", "http", "status.go"))
+		type reply struct {
+			msg    string
+			msgOK  bool
+			code   *big.Int
+			codeOK bool
+		}
+		var replies []reply
+		if fd := funcDeclRecv(p("server.go"), "Server", "ServeHTTP"); fd != nil {
+			ast.Inspect(fd, func(x ast.Node) bool {
+				ce, ok := x.(*ast.CallExpr)
+				if !ok || len(ce.Args) != 3 {
+					return true
+				}
+				se, ok := ce.Fun.(*ast.SelectorExpr)
+				if !ok || se.Sel.Name != "Error" {
+					return true
+				}
+				if id, ok := se.X.(*ast.Ident); !ok || id.Name != "http" {
+					return true
+				}
+				var r reply
+				r.msg, r.msgOK = evalString(ce.Args[1], env2)
+				if v, ok := evalInt(ce.Args[2]); ok {
+					r.code, r.codeOK = v, true
+				} else if sel, ok := ce.Args[2].(*ast.SelectorExpr); ok {
+					r.code, r.codeOK = intConst(status, sel.Sel.Name)
+				}
+				replies = append(replies, r)
+				return true
+			})
+		}
+		for len(replies) < 2 {
+			replies = append(replies, reply{})
+		}
+		if replies[0].msgOK {
+			add("serve_unsupported_message", "list N", bytesTerm(replies[0].msg), "server.go:ServeHTTP first http.Error", true, "")
+		} else {
+			add("serve_unsupported_message", "list N", bytesTerm("Server-sent events unsupported"), "server.go:ServeHTTP first http.Error", false, "could not re-derive; value the model was written against")
+		}
+		intParam("serve_unsupported_status", 500, "server.go:ServeHTTP first http.Error (net/http/status.go)", replies[0].code, replies[0].codeOK, "N")
+		intParam("serve_provider_error_status", 500, "server.go:ServeHTTP second http.Error (net/http/status.go)", replies[1].code, replies[1].codeOK, "N")
+	}
+
 	var sb strings.Builder
 	sb.WriteString("(* GENERATED by verif-params from /repo's working tree on every run. Do not edit. *)\n")
 	sb.WriteString("From Coq Require Import List NArith ZArith.\nImport ListNotations.\n\n")
